@@ -4,6 +4,8 @@ CONSTANTS
   CrashPoints = FALSE
   RollFaults = TRUE
   RollKills = TRUE
+  RoomFaults = TRUE
+  RollDesign = "rename"
   MaxCount = 3
   Limit = 4
   MaxWrite = 6
@@ -17,9 +19,11 @@ CONSTANTS
   FlushFaults = TRUE
   PreTmp = 0
   MaxDumps = 3
+  ListFaults = TRUE
+  DumpDesign = "cleanup-first"
   PreDumps = 0
   MaxIds = 0
 INVARIANTS T_LogCount T_LogCountAfterRoll T_LogSize T_EvCount T_DumpCount
-PROPERTIES T_EvDropAtCap T_DumpOldestFirst
+PROPERTIES T_EvDropAtCap T_DumpNoGrowthAtMax T_DumpOldestFirst
 POSTCONDITION Accepted
 CHECK_DEADLOCK FALSE
